@@ -4,7 +4,7 @@ use bytes::Bytes;
 use nom::{Parser, multi::length_data};
 
 use crate::{
-    cid::{ConnectionId, WriteConnectionId},
+    cid::{ConnectionId, WriteConnectionId, be_connection_id_with_len},
     error::QuicError,
     param::{
         core::{ParameterId, ParameterValue, ParameterValueType, Parameters, ServerParameters},
@@ -50,10 +50,11 @@ pub fn be_parameter_value(input: &[u8], id: ParameterId) -> nom::IResult<&[u8], 
         ParameterValueType::ResetToken => {
             map(be_reset_token, ParameterValue::ResetToken).parse(input)
         }
-        ParameterValueType::ConnectionId => Ok((
-            &[],
-            ParameterValue::ConnectionId(ConnectionId::from_slice(input)),
-        )),
+        ParameterValueType::ConnectionId => {
+            // a connection id longer than 20 bytes is a malformed value
+            let (remain, cid) = be_connection_id_with_len(input, input.len())?;
+            Ok((remain, ParameterValue::ConnectionId(cid)))
+        }
         ParameterValueType::PreferredAddress => {
             map(be_preferred_address, ParameterValue::PreferredAddress).parse(input)
         }
@@ -145,11 +146,10 @@ impl<Role, T: bytes::BufMut> WriteParameters<Role> for T {
 }
 
 fn handle_nom_error<F: Debug, E: Debug>(input: &[u8], nom_error: nom::Err<F, E>) -> Error {
-    assert!(
-        matches!(nom_error, nom::Err::Incomplete(..)),
-        "Only incomplete errors should occur, but {nom_error:?} happened for input: {input:?}"
-    );
-    Error::IncompleteParameterId(format!("incomplete parameter data for input: {input:?}"))
+    // the input comes from the peer: a malformed value is a transport parameter error, not a bug
+    Error::IncompleteParameterId(format!(
+        "malformed parameter data ({nom_error:?}) for input: {input:?}"
+    ))
 }
 
 impl<R: IntoRole + RequiredParameters + Default> Parameters<R> {
@@ -172,7 +172,13 @@ impl<R: IntoRole + RequiredParameters + Default> Parameters<R> {
             ParameterId::belong_to(param_id, R::into_role())?;
             let (remain, param_value) = be_parameter_value(param_value, param_id)
                 .map_err(|nom_error| handle_nom_error(param_value, nom_error))?;
-            assert!(remain.is_empty(), "Parameter value should consume all data");
+            if !remain.is_empty() {
+                return Err(Error::IncompleteValue(
+                    param_id,
+                    format!("{} unexpected trailing bytes", remain.len()),
+                )
+                .into());
+            }
 
             parameters.set(param_id, param_value)?;
         }
@@ -205,7 +211,13 @@ impl ServerParameters {
             ParameterId::belong_to(param_id, Role::Server)?;
             let (remain, param_value) = be_parameter_value(param_value, param_id)
                 .map_err(|nom_error| handle_nom_error(param_value, nom_error))?;
-            assert!(remain.is_empty(), "Parameter value should consume all data");
+            if !remain.is_empty() {
+                return Err(Error::IncompleteValue(
+                    param_id,
+                    format!("{} unexpected trailing bytes", remain.len()),
+                )
+                .into());
+            }
 
             parameters.set(param_id, param_value)?;
         }
